@@ -13,7 +13,7 @@ namespace HH.C08
 open PP
 
 @[simp] theorem dbg_true (p : Profile) (msg : String) : dbg p true msg = .ok () := by
-  cases p <;> rfl
+  unfold dbg chk; split <;> rfl
 
 theorem dbg_of (p : Profile) (c : Bool) (msg : String) (h : c = true) : dbg p c msg = .ok () := by
   subst h; simp
@@ -29,15 +29,30 @@ theorem copy_ok {α} (d s : List α) (h : d.length = s.length) : copyFromSlice d
   simp [copyFromSlice, h]; rfl
 theorem splitAt_ok {α} (l : List α) (n : Nat) (h : n ≤ l.length) : splitAt l n = .ok (l.take n, l.drop n) := by
   simp [splitAt, h]; rfl
-theorem add64_ok (p : Profile) (a b : Nat) (h : a + b < 2 ^ 64) : add64 p a b = .ok (a + b) := by
+theorem add64_ok (p : Profile) (a b : Nat) (h : a + b < 2 ^ p.usizeBits) : add64 p a b = .ok (a + b) := by
   simp only [add64, dbg_ok p _ _ h]
   simp only [bind, Except.bind, pure, Except.pure, Nat.mod_eq_of_lt h]
-theorem sub64_ok (p : Profile) (a b : Nat) (h : b ≤ a) (ha : a < 2 ^ 64) : sub64 p a b = .ok (a - b) := by
+theorem sub64_ok (p : Profile) (a b : Nat) (h : b ≤ a) (ha : a < 2 ^ p.usizeBits) : sub64 p a b = .ok (a - b) := by
   simp only [sub64, dbg_ok p _ _ h]
+  have : (2 ^ p.usizeBits + a - b) % 2 ^ p.usizeBits = a - b := by
+    have : 2 ^ p.usizeBits + a - b = 2 ^ p.usizeBits + (a - b) := by omega
+    rw [this, Nat.add_mod_left]; exact Nat.mod_eq_of_lt (by omega)
+  simp only [bind, Except.bind, pure, Except.pure, this]
+
+theorem subU64_ok (p : Profile) (a b : Nat) (h : b ≤ a) (ha : a < 2 ^ 64) : subU64 p a b = .ok (a - b) := by
+  simp only [subU64, dbg_ok p _ _ h]
   have : (2 ^ 64 + a - b) % 2 ^ 64 = a - b := by
     have : 2 ^ 64 + a - b = 2 ^ 64 + (a - b) := by omega
     rw [this, Nat.add_mod_left]; exact Nat.mod_eq_of_lt (by omega)
   simp only [bind, Except.bind, pure, Except.pure, this]
+
+/-- `usize` has at least 16 bits on every Rust target -/
+def WideEnough (p : Profile) : Prop := 65536 ≤ 2 ^ p.usizeBits
+
+theorem add64_small (p : Profile) (hW : WideEnough p) (a b : Nat) (h : a + b < 65536) : add64 p a b = .ok (a + b) :=
+  add64_ok p a b (by unfold WideEnough at hW; omega)
+theorem sub64_small (p : Profile) (hW : WideEnough p) (a b : Nat) (h : b ≤ a) (ha : a < 65536) : sub64 p a b = .ok (a - b) :=
+  sub64_ok p a b h (by unfold WideEnough at hW; omega)
 
 theorem asSlice_ok (p : Profile) (k : Pkt) (h : k.idx ≤ k.buf.length) : asSlice p k = .ok k.asSlice := by
   simp only [asSlice, dbg_ok p _ _ h]
@@ -54,7 +69,7 @@ theorem setTo_ok (p : Profile) (k : Pkt) (data : List (BitVec 8)) (hb : k.buf.le
     rw [copy_ok _ _ (by simp; omega)]
     rfl
 
-theorem fill_ok (p : Profile) (k : Pkt) (data : List (BitVec 8)) (hk : k.Inv) (hd : data.length < 2 ^ 63) :
+theorem fill_ok (p : Profile) (hW : WideEnough p) (k : Pkt) (data : List (BitVec 8)) (hk : k.Inv) :
     fill p k data = .ok (k.fill data) := by
   obtain ⟨hi, hb⟩ := hk
   have hdl : (List.drop k.idx k.buf).length = 32 - k.idx := by simp [hb]
@@ -65,7 +80,7 @@ theorem fill_ok (p : Profile) (k : Pkt) (data : List (BitVec 8)) (hk : k.Inv) (h
     simp only []
     rw [copy_ok _ _ (by simp; omega)]
     simp only []
-    rw [add64_ok p _ _ (by omega)]
+    rw [add64_small p hW _ _ (by omega)]
     simp only [pure, Except.pure, List.drop_drop]
   · simp only [hg, ↓reduceIte, bind, Except.bind]
     rw [splitAt_ok _ _ (by omega)]
@@ -76,7 +91,7 @@ theorem fill_ok (p : Profile) (k : Pkt) (data : List (BitVec 8)) (hk : k.Inv) (h
     rw [this, List.append_nil]
 
 /-- `append` never panics and computes the pure model's result -/
-theorem append_ok (p : Profile) (x : P.State) (data : List (BitVec 8)) (hx : x.buffer.Inv) (hd : data.length < 2 ^ 63) :
+theorem append_ok (p : Profile) (hW : WideEnough p) (x : P.State) (data : List (BitVec 8)) (hx : x.buffer.Inv) :
     PP.append p x data = .ok (P.append x data) := by
   have hb := hx.2
   simp only [PP.append, P.append, appendG]
@@ -87,7 +102,7 @@ theorem append_ok (p : Profile) (x : P.State) (data : List (BitVec 8)) (hx : x.b
     rfl
   · have h0' : x.buffer.isEmpty = false := by simpa using h0
     simp only [h0', Bool.false_eq_true, ↓reduceIte, bind, Except.bind]
-    rw [fill_ok p _ _ hx hd]
+    rw [fill_ok p hW _ _ hx]
     simp only []
     -- case split on what `fill` returned
     cases hf : x.buffer.fill data with
@@ -112,7 +127,7 @@ theorem append_ok (p : Profile) (x : P.State) (data : List (BitVec 8)) (hx : x.b
 theorem rotHalf_ok (p : Profile) (count : Nat) (h : BitVec 32) (h1 : 1 ≤ count) (h2 : count < 32) :
     rotHalf p count h = .ok ((h <<< (count % 32)) ||| (h >>> (((2 ^ 64 + 32 - count) % 2 ^ 64) % 32))) := by
   simp only [rotHalf, dbg_ok p _ _ h2, bind, Except.bind]
-  rw [sub64_ok p 32 count (by omega) (by omega)]
+  rw [subU64_ok p 32 count (by omega) (by omega)]
   simp only []
   rw [dbg_ok p _ _ (show 32 - count < 32 by omega)]
   simp only [pure, Except.pure]
@@ -134,18 +149,18 @@ theorem updateLanes_ok (p : Profile) (s : St) (size : Nat) (h1 : 1 ≤ size) (h2
 
 set_option maxRecDepth 100000 in
 set_option maxHeartbeats 8000000 in
-theorem remainder_ok_fn (p : Profile) (n : Nat) (h : n < 32) (f : Fin n → BitVec 8) :
+theorem remainder_ok_fn (p : Profile) (hW : WideEnough p) (n : Nat) (h : n < 32) (f : Fin n → BitVec 8) :
     PP.remainder p (List.ofFn f) = .ok (P.remainder (List.ofFn f)) := by
   interval_cases n <;>
-    simp [PP.remainder, P.remainder, sliceFrom, sliceTo, copyFromSlice, add64, sub64, index, zeros, bind, Except.bind, pure,
-      Except.pure, List.ofFn_succ, List.replicate, List.set, List.getD, List.zipWith]
+    simp [PP.remainder, P.remainder, sliceFrom, sliceTo, copyFromSlice, add64_small p hW, sub64_small p hW, index, zeros, bind,
+      Except.bind, pure, Except.pure, List.ofFn_succ, List.replicate, List.set, List.getD, List.zipWith]
 
-theorem remainder_ok (p : Profile) (bytes : List (BitVec 8)) (h : bytes.length < 32) :
+theorem remainder_ok (p : Profile) (hW : WideEnough p) (bytes : List (BitVec 8)) (h : bytes.length < 32) :
     PP.remainder p bytes = .ok (P.remainder bytes) := by
-  have := remainder_ok_fn p bytes.length h (fun i => bytes[i])
+  have := remainder_ok_fn p hW bytes.length h (fun i => bytes[i])
   simpa using this
 
-theorem finalizeCommon_ok (p : Profile) (n : Nat) (x : P.State) (hx : x.buffer.Inv) :
+theorem finalizeCommon_ok (p : Profile) (hW : WideEnough p) (n : Nat) (x : P.State) (hx : x.buffer.Inv) :
     PP.finalizeCommon p n x = .ok (P.finalizeCommon n x) := by
   obtain ⟨hi, hb⟩ := hx
   simp only [PP.finalizeCommon, P.finalizeCommon]
@@ -157,15 +172,15 @@ theorem finalizeCommon_ok (p : Profile) (n : Nat) (x : P.State) (hx : x.buffer.I
     simp only []
     rw [asSlice_ok p _ (by omega)]
     simp only []
-    rw [remainder_ok p _ (by simp [Pkt.asSlice]; omega)]
+    rw [remainder_ok p hW _ (by simp [Pkt.asSlice]; omega)]
     rfl
 
-theorem finalize64_ok (p : Profile) (x : P.State) (hx : x.buffer.Inv) : PP.finalize64 p x = .ok (P.finalize64 x) := by
-  simp only [PP.finalize64, finalizeCommon_ok p _ x hx, bind, Except.bind, pure, Except.pure, P.finalize64]
-theorem finalize128_ok (p : Profile) (x : P.State) (hx : x.buffer.Inv) : PP.finalize128 p x = .ok (P.finalize128 x) := by
-  simp only [PP.finalize128, finalizeCommon_ok p _ x hx, bind, Except.bind, pure, Except.pure, P.finalize128]
-theorem finalize256_ok (p : Profile) (x : P.State) (hx : x.buffer.Inv) : PP.finalize256 p x = .ok (P.finalize256 x) := by
-  simp only [PP.finalize256, finalizeCommon_ok p _ x hx, bind, Except.bind, pure, Except.pure, P.finalize256]
+theorem finalize64_ok (p : Profile) (hW : WideEnough p) (x : P.State) (hx : x.buffer.Inv) : PP.finalize64 p x = .ok (P.finalize64 x) := by
+  simp only [PP.finalize64, finalizeCommon_ok p hW _ x hx, bind, Except.bind, pure, Except.pure, P.finalize64]
+theorem finalize128_ok (p : Profile) (hW : WideEnough p) (x : P.State) (hx : x.buffer.Inv) : PP.finalize128 p x = .ok (P.finalize128 x) := by
+  simp only [PP.finalize128, finalizeCommon_ok p hW _ x hx, bind, Except.bind, pure, Except.pure, P.finalize128]
+theorem finalize256_ok (p : Profile) (hW : WideEnough p) (x : P.State) (hx : x.buffer.Inv) : PP.finalize256 p x = .ok (P.finalize256 x) := by
+  simp only [PP.finalize256, finalizeCommon_ok p hW _ x hx, bind, Except.bind, pure, Except.pure, P.finalize256]
 
 /-! ### checkpoint / restore -/
 
@@ -183,12 +198,12 @@ theorem checkpoint_ok (p : Profile) (x : P.State) (hx : x.buffer.Inv) : PP.check
   simp only [pure, Except.pure, P.checkpoint, Pkt.len]
 
 /-- restore from ANY 164-byte array: no panic point fires, in either profile -/
-theorem fromCheckpoint_ok (p : Profile) (c : List (BitVec 8)) (hc : c.length = 164) :
+theorem fromCheckpoint_ok (p : Profile) (hW : WideEnough p) (c : List (BitVec 8)) (hc : c.length = 164) :
     PP.fromCheckpoint p c = .ok (P.fromCheckpoint c) := by
   simp only [PP.fromCheckpoint, chk, hc, decide_true, ↓reduceIte, bind, Except.bind, pure, Except.pure]
   rw [sliceTo_ok _ _ (by simp [hc])]
   simp only []
-  rw [fill_ok p _ _ Pkt.default_inv (by simp [hc])]
+  rw [fill_ok p hW _ _ Pkt.default_inv]
   simp only [P.fromCheckpoint]
 
 /-! ### histories -/
@@ -200,9 +215,11 @@ def appendAll (p : Profile) : P.State → List (List (BitVec 8)) → PP.R P.Stat
     | .ok x' => appendAll p x' ds
     | .error e => .error e
 
-/-- no history of safe calls on a hasher that satisfies the invariant panics, in either profile:
-any number of appends (each shorter than `isize::MAX`), then any finalisation and checkpoint -/
-theorem history_ok (p : Profile) (chunks : List (List (BitVec 8))) (hlen : ∀ d ∈ chunks, d.length < 2 ^ 63) :
+/-- no history of safe calls on a hasher that satisfies the invariant panics, with or without
+overflow checks / debug assertions, on every pointer width ≥ 16 bits: any number of appends of any
+lengths, then any finalisation and checkpoint; and the results are those of the width-free pure
+model (so they do not depend on the pointer width: the model half of C17) -/
+theorem history_ok (p : Profile) (hW : WideEnough p) (chunks : List (List (BitVec 8))) :
     ∀ (x : P.State), x.buffer.Inv →
       appendAll p x chunks = .ok (chunks.foldl P.append x) ∧
       PP.finalize64 p (chunks.foldl P.append x) = .ok (P.finalize64 (chunks.foldl P.append x)) ∧
@@ -212,12 +229,12 @@ theorem history_ok (p : Profile) (chunks : List (List (BitVec 8))) (hlen : ∀ d
   induction chunks with
   | nil =>
     intro x hx
-    exact ⟨rfl, finalize64_ok p x hx, finalize128_ok p x hx, finalize256_ok p x hx, checkpoint_ok p x hx⟩
+    exact ⟨rfl, finalize64_ok p hW x hx, finalize128_ok p hW x hx, finalize256_ok p hW x hx, checkpoint_ok p x hx⟩
   | cons d ds ih =>
     intro x hx
-    have ha := append_ok p x d hx (hlen d List.mem_cons_self)
+    have ha := append_ok p hW x d hx
     have hinv : (P.append x d).buffer.Inv := (appendG_abs P.updPacket (x.st, x.buffer) d hx).2
-    have := ih (fun e he => hlen e (List.mem_cons_of_mem _ he)) (P.append x d) hinv
+    have := ih (P.append x d) hinv
     simp only [appendAll, ha, List.foldl_cons]
     exact this
 
@@ -230,6 +247,9 @@ theorem constructors_inv (k : V4) (c : List (BitVec 8)) (hc : c.length = 164) :
 /-- the defect of the pinned tree, in the panicking semantics: a count field of 32 restores
 `idx = 32`, and `finalize64` then panics in the debug profile (shift overflow), while release
 silently computes a back-end dependent value -/
+theorem profiles_wide_enough : WideEnough Profile.debug ∧ WideEnough Profile.release ∧ WideEnough ⟨true, 32⟩ ∧ WideEnough ⟨true, 16⟩ := by
+  unfold WideEnough Profile.debug Profile.release; decide
+
 theorem legacy_debug_panic :
     let x : P.State := ⟨(P.new ⟨1, 2, 3, 4⟩).st, ⟨zeros 32, 32⟩⟩
     PP.finalize64 .debug x = .error "attempt to shift left with overflow" ∧
